@@ -79,8 +79,8 @@ fn belt_key(k: &[u8]) -> Option<[u32; 8]> {
     Some(r)
 }
 
-/// conversion routes (C12): returns the probe of the instance reached through `route`
-macro_rules! routes {
+/// the instance reached through a construction route (new / From<Enc> / From<&Enc> / clone combinations)
+macro_rules! route_obj {
     ($C:ty, $E:ty, $D:ty, $route:expr, $key:expr) => {{
         let key = $key;
         zero::paint_stack(0x5A);
@@ -153,8 +153,17 @@ macro_rules! routes {
                 zero::paint_stack(0x3C);
                 Box::new(DecOnly(<$D>::from(e2))) as Box<dyn Obj>
             }),
-            _ => return Some("bad-op".into()),
+            _ => None,
         };
+        r
+    }};
+}
+
+
+/// conversion routes (C12): returns the probe of the instance reached through `route`
+macro_rules! routes {
+    ($C:ty, $E:ty, $D:ty, $route:expr, $key:expr) => {{
+        let r: Option<Box<dyn Obj>> = route_obj!($C, $E, $D, $route, $key);
         zero::paint_stack(0xC3);
         match r {
             Some(o) => probe(&*o),
@@ -209,6 +218,17 @@ macro_rules! zroutes {
             _ => "bad-op".into(),
         }
     }};
+}
+
+/// instance built through a route of a family (used by `hist` scripts: `r:<id>:<family>:<route>:<keyhex>`)
+pub fn route_instance(fam: &str, route: &str, k: &[u8]) -> Option<Box<dyn Obj>> {
+    match fam {
+        "Aes128" => route_obj!(aes::Aes128, aes::Aes128Enc, aes::Aes128Dec, route, k),
+        "Aes192" => route_obj!(aes::Aes192, aes::Aes192Enc, aes::Aes192Dec, route, k),
+        "Aes256" => route_obj!(aes::Aes256, aes::Aes256Enc, aes::Aes256Dec, route, k),
+        "Kuznyechik" => route_obj!(kuznyechik::Kuznyechik, kuznyechik::KuznyechikEnc, kuznyechik::KuznyechikDec, route, k),
+        _ => None,
+    }
 }
 
 pub fn exec(t: &[&str]) -> Option<String> {
